@@ -139,6 +139,22 @@ CHECKS["C18"] = dict(
    technique="Coq structural proof (reset = constructor on all fields) + Debug-level model/impl correspondence through the extracted model + event-trace differential",
    ref="§5 C18, §11")
 
+CHECKS["C17"] = dict(
+   text="Machine-checked proof over a model of every panic site reachable from the builder, the construction "
+        "(From<&SameReceiverBuilder>, component constructors) and the per-sample data-dependent clamps, with floats as an arbitrary total "
+        "order (domain: no NaN): ANY sequence of builder calls with ANY arguments returns a builder and keeps the invariant; construction "
+        "from such a builder never trips an assert given >= 1 matched-filter tap; the tap count floor(rate/520.83) evaluated bit-exactly in "
+        "IEEE-754 binary32 (Flocq) is >= 15 for every rate 8000..192000 (finite sweep, bound stated); the DC window is >= 1 for every float; "
+        "the AGC clamp needs only the documented min <= max; the squelch's expect() is unreachable. Partial: panics inside float library "
+        "code and the per-sample DSP are sampled (0.5 s of audio per configuration), not proved. One genuine defect was repaired (fix: aac361b).",
+   note="Trusted: Coq kernel, vm_compute; Flocq (its theorems depend on the standard library's classical-reals axioms: "
+        "ClassicalDedekindReals.sig_forall_dec, sig_not_dec, FunctionalExtensionality.functional_extensionality_dep, Classical_Prop.classic - "
+        "allow-listed by name, reported by Print Assumptions for the two Flocq-dependent theorems only); hand-written model tied by running "
+        "builder call sequences on the real builder and on the extracted model (getters, window lengths, panic/no-panic) with the sizes "
+        "evaluated in Coq; harness; samedec binary for the CLI options.",
+   technique="Coq proof (invariant over call sequences, Flocq binary32 sweep for the size) + extracted-model/impl correspondence on call sequences + panic sampling",
+   ref="§5 C17, §11")
+
 NOT_APPLICABLE = {}
 
 def main():
